@@ -4,3 +4,15 @@
 pub use crate::storage::{ChainStorage, StorageConfig, TraceStorage};
 pub use crate::sampler_stats::StatsDims;
 pub use crate::storage::HashMapResult;
+
+/// Read-only view of the adaptation schedule counters (hook H4).
+#[derive(Debug, Clone, Copy, PartialEq, Eq)]
+pub struct AdaptCounters {
+    pub foreground: u64,
+    pub background: u64,
+    pub window: u64,
+    pub early_end: u64,
+    pub final_window_start: u64,
+    pub last_update: u64,
+    pub has_initial_mass_matrix: bool,
+}
